@@ -652,7 +652,7 @@ def c06 (cfg : Cfg) (tr : List TE) : List Viol :=
     let others := fun (e : Exchg) =>
       let os := opens.filter fun (m, t, _) => m == e.mid && t + budget + cfg.retryDelay ≥ e.t0 && t ≤ s.t
       -- drop one opening of the exchange's own kind (itself)
-      let ks := os.map fun (_, _, k) => k
+      let ks := (os.map fun (_, _, k) => k).filter (· != "queued-ack")
       let ks := match ks.idxOf? e.kind with | some i => ks.eraseIdx i | none => ks
       (ks.eraseDups.toArray.qsort (· < ·)).toList
     -- the side that opened an exchange; an exchange superseded by a LATER exchange of its own side
@@ -716,9 +716,14 @@ def c06 (cfg : Cfg) (tr : List TE) : List Viol :=
       | some (.publish _ 1 _ _ _ m _) => if s.mqOuts.any (fun p => match p with | .publish .. => true | _ => false) then [{ kind := "client-pub1", mid := m, t0 := s.t, tLast := s.t }] else []
       | some (.subscribe _ _ _ m _ _) => if s.mqOuts.any (fun p => match p with | .subscribe .. => true | _ => false) then [{ kind := "subscribe", mid := m, t0 := s.t, tLast := s.t }] else []
       | _ => []) ++
-      (s.snOuts.filterMap fun p => match p with
-        | .publish _ 1 _ _ _ m _ => some { kind := "broker-pub1", mid := m, t0 := s.t, tLast := s.t }
-        | .publish _ 2 _ _ _ m _ => some { kind := "broker-pub2", mid := m, t0 := s.t, tLast := s.t }
+      (s.snOuts.filterMap fun p =>
+        -- a PUBLISH that the client acknowledged while it was still queued (it never saw it: a client answering
+        -- blindly) has no exchange left when the queue is flushed at a wake-up or re-CONNECT
+        let flush := match s.snIn with | some (.pingreq _) => true | some (.connect ..) => true | _ => false
+        let spent := fun (m : UInt16) => flush && opens.any fun (m2, _, k) => m2 == m && k == "queued-ack"
+        match p with
+        | .publish _ 1 _ _ _ m _ => if spent m then none else some { kind := "broker-pub1", mid := m, t0 := s.t, tLast := s.t }
+        | .publish _ 2 _ _ _ m _ => if spent m then none else some { kind := "broker-pub2", mid := m, t0 := s.t, tLast := s.t }
         | _ => none)
     -- a new exchange under a key replaces the bookkeeping of an older one of the same kind
     let open_ := (open_.filter fun (e : Exchg) => !(newOpen.any fun (n : Exchg) => n.kind == e.kind && n.mid == e.mid)) ++ newOpen
@@ -727,7 +732,14 @@ def c06 (cfg : Cfg) (tr : List TE) : List Viol :=
         | some (.publish _ 2 _ _ _ m _) => if s.mqOuts.isEmpty then [] else [(m, s.t, "client-pub2")]
         | some (.publish _ 0 _ _ _ m _) => if s.mqOuts.isEmpty || m == 0 then [] else [(m, s.t, "client-pub0")]
         | _ => []) ++
-      (s.snOuts.filterMap fun p => match p with | .register _ m _ => some (m, s.t, "gw-register") | _ => none)
+      (s.snOuts.filterMap fun p => match p with | .register _ m _ => some (m, s.t, "gw-register") | _ => none) ++
+      (let queued := fun (m : UInt16) => h.gwBuf.any fun b => match decode b with
+          | .ok (_, .publish _ q _ _ _ m2 _) => m2 == m && (q == 1 || q == 2)
+          | _ => false
+       match s.snIn with
+        | some (.puback _ m _) => if queued m then [(m, s.t, "queued-ack")] else []
+        | some (.pubrec m) => if queued m then [(m, s.t, "queued-ack")] else []
+        | _ => [])
     (h.afterStep s, open_, opens, vs ++ v)) ({ endedAt := endedAtOf tr }, [], [], [])
   vs
 
